@@ -172,6 +172,44 @@ static void le_op(std::vector<std::string>& tk) {
       cgsys[w]->insert(c2);
       continue;
     }
+    else if (name == "sysop") {
+      // Linear_System-level operations on copies of the world's systems (they use linear_combine,
+      // swap/permute/remove/shift of columns, normalisation and row comparison on both representations)
+      int k = IARG(2);
+      Constraint_System cs(*csys[w]);
+      Generator_System gs(*gsys[w]);
+      Congruence_System cgs(*cgsys[w]);
+      dim cd = cs.space_dimension(), gd = gs.space_dimension(), qd = cgs.space_dimension();
+      if (k == 0) { cs.strong_normalize(); cs.sort_rows(); gs.strong_normalize(); gs.sort_rows(); }
+      else if (k == 1) { cs.simplify(); gs.simplify(); }
+      else if (k == 2) {
+        if (cd >= 2) { std::vector<Variable> c; for (dim i = 0; i < cd; ++i) c.push_back(Variable(i)); cs.permute_space_dimensions(c); }
+        if (gd >= 2) { std::vector<Variable> c; for (dim i = 0; i < gd; ++i) c.push_back(Variable(i)); gs.permute_space_dimensions(c); }
+        if (qd >= 2) { std::vector<Variable> c; for (dim i = 0; i < qd; ++i) c.push_back(Variable(i)); cgs.permute_space_dimensions(c); }
+      }
+      else if (k == 3) {
+        Variables_Set vs; vs.insert(Variable(0));
+        if (cd >= 2) cs.remove_space_dimensions(vs);
+        if (gd >= 2) gs.remove_space_dimensions(vs);
+      }
+      else if (k == 4) {
+        if (cd >= 1) cs.shift_space_dimensions(Variable(0), 2);
+        if (gd >= 1) gs.shift_space_dimensions(Variable(0), 2);
+      }
+      else {
+        if (cd >= 2) cs.swap_space_dimensions(Variable(0), Variable(cd - 1));
+        if (gd >= 2) gs.swap_space_dimensions(Variable(0), Variable(gd - 1));
+        if (qd >= 2) cgs.swap_space_dimensions(Variable(0), Variable(qd - 1));
+      }
+      std::cout << "C" << w << " sysop" << k << " cs{";
+      for (Constraint_System::const_iterator i = cs.begin(), ie = cs.end(); i != ie; ++i) std::cout << show_con(*i) << "|";
+      std::cout << "} gs{";
+      for (Generator_System::const_iterator i = gs.begin(), ie = gs.end(); i != ie; ++i) std::cout << show_gen(*i) << "|";
+      std::cout << "} cgs{";
+      for (Congruence_System::const_iterator i = cgs.begin(), ie = cgs.end(); i != ie; ++i) std::cout << show_cg(*i) << "|";
+      std::cout << "}\n";
+      continue;
+    }
     else if (name == "sys") {
       std::cout << "C" << w << " sys cs{";
       for (Constraint_System::const_iterator i = csys[w]->begin(), ie = csys[w]->end(); i != ie; ++i) std::cout << show_con(*i) << "|";
